@@ -16,26 +16,60 @@ from checks import c08
 TRUST = ("Lean 4.33 kernel; axioms at most propext/Classical.choice/Quot.sound (audited per run); hand-written trainer/solver "
          "model tied by bit-for-bit correspondence with CSvmTrainer on exact (integer-point, linear-kernel) data; ")
 MANIFEST = dict(
-  text=("Theorems (Props/C07.lean) over Rat about the solver/trainer model: objective_recomputed -- the objective reported by "
-        "the solver (0.5*(g+lin).alpha) equals the recomputed dual objective lin.alpha - 0.5*alpha^T K alpha whenever the "
-        "gradient invariant of C08 holds for all variables; stop_implies_kkt -- when the model of QpSolver::solve leaves its "
-        "loop with AccuracyReached, the KKT violation (checkKKT) of the un-shrunk state, which is the state reported, is below eps. "
-        "Tie: the Float instance of the trainer model (problem set-up, solver loop, un-permutation, computeBias) equals the real "
-        "CSvmTrainer bit-for-bit (coefficients, bias, stop reason, iteration count) on integer-point data with the linear "
-        "kernel; an independent trainer-level oracle (own kernel matrix; box, equality constraint, KKT(eps), bias interval, "
-        "reported objective) runs over the configuration cross bias x shrinking x precomputed/cache sizes x C x eps x "
-        "{linear, Gaussian} and compares the objectives across configurations against 2*eps*sum(U-L)."),
-  note=TRUST + "NOT proved (oracle / correspondence only): kkt_eps_near_optimal (the 2*eps*sum(U-L) bound is used by the oracle as a "
-       "test bound, not as a theorem), bias_in_kkt_interval, unpermute_correct; epsilon-regression and one-class trainers, "
-       "class-specific / per-example C and warm starts are not covered at trainer level (their problem classes are those of C08); "
-       "Gaussian kernels only through the toleranced oracle; termination of the solver is not claimed.",
-  technique="Lean 4 proof on a solver/trainer model + differential correspondence with the C++ trainer (bit-for-bit on exact data) + independent KKT oracle",
+  text=("Theorems (Props/C07.lean) over Rat, all sizes. objective_recomputed -- the objective reported by the solver "
+        "(0.5*(g+lin).alpha) equals the recomputed dual objective lin.alpha - 0.5*alpha^T K alpha whenever the gradient invariant "
+        "of C08 holds for all variables; stop_implies_kkt -- when the model of QpSolver::solve leaves its loop with "
+        "AccuracyReached, the KKT violation (checkKKT) of the un-shrunk state, which is the state reported, is below eps; "
+        "stopped_pairwise_svm / stopped_kkt_box -- under the C08 invariant that checkKKT bound IS the KKT condition on the "
+        "coefficients (g_i - g_j <= eps for every i below its upper and j above its lower bound; resp. every single violation "
+        "<= eps); kkt_eps_near_optimal / kkt_eps_near_optimal_box -- for any symmetric PSD quadratic form, a feasible point that "
+        "satisfies these KKT conditions up to eps has dual objective within eps*sum(U-L) of EVERY feasible point (with the same "
+        "coefficient sum when a bias is trained): direct concavity argument, with exists_bias; stopped_near_optimal_svm/_box -- "
+        "the same for the state the solver reports; config_independence(_box) -- two runs of any configuration (shrinking, "
+        "cache, precomputation, warm start) that both report AccuracyReached differ in dual objective by at most eps*sum(U-L) "
+        "(explicit constant; the oracle tests against 2*eps*sum(U-L)); bias_in_kkt_interval_partial -- the value returned by "
+        "the model of computeBias (free-variable mean, else midpoint of the two bounds; variables with an empty box interior "
+        "skipped) satisfies g_i - b <= eps for i not at the upper and b - g_j <= eps for j not at the lower bound, for gradients "
+        "inside the C++ sentinel range [-1e100,1e100] (bias_sentinel_witness outside; bias_degenerate_box_instance_repaired); "
+        "eps_offset_in_kkt_interval_partial / oneclass_offset_in_kkt_interval_partial -- the same for the offset loops of "
+        "EpsilonSvmTrainer and OneClassSvmTrainer (shown equal to computeBias on boxes with non-empty interior); "
+        "unpermute_correct -- getUnpermutedAlpha inverts every injective accumulated permutation. Widened trainers: csvmInit2_inv "
+        "(class-specific C, per-example weights), epsInit_inv (2n-variable epsilon-regression problem) and oneClassInit_inv "
+        "(alpha = 1/n start, coefficient sum 1; via initWith_inv) show that these problems start inside the C08 invariant, "
+        "psd_block that the epsilon-regression block matrix [[K,K],[K,K]] is PSD when K is, so all theorems above apply to them; "
+        "warm starts: setInitialSolution_inv (the rebuilt gradient and edge gradient satisfy the invariant for any start vector "
+        "in the box), warmStart_in_box, warmStart_sum_zero and warmStart_untouched (the start vector of the repaired "
+        "CSvmTrainer::optimize lies in the per-example box; with bias it sums to exactly 0 whenever clipping changed a "
+        "coefficient; a previous vector that fits the box is passed through unchanged), warm_start_inv. End to end: "
+        "solve_acc (AccuracyReached => all variables active and checkKKT < eps in the returned state), solve_optimal_box / "
+        "csvm_nobias_optimal -- for a PSD kernel, whenever the model of the trainer without bias reports AccuracyReached the "
+        "returned coefficients are eps*sum(U-L)-optimal among ALL feasible vectors, with no hypothesis about the run (built on "
+        "C08 solve_inv_box); solve_optimal_svm_partial -- the same with bias / epsilon-regression / one-class against all "
+        "feasible vectors of the same coefficient sum, for runs whose gradients stay inside the sentinel range. "
+        "Tie: the Float instance of the trainer model (problem set-ups of CSvmTrainer with one or class-specific C and "
+        "per-example weights, cold and warm start incl. clipping and re-balancing, of EpsilonSvmTrainer (2n-variable block "
+        "problem, offset loop) and of OneClassSvmTrainer (alpha = 1/n start, offset loop); solver loop; un-permutation; "
+        "computeBias) equals the real trainers bit-for-bit (coefficients, bias, stop reason, iteration count) on integer-point "
+        "data with the linear kernel, across precomputed / cached kernel and cache sizes; an independent trainer-level oracle "
+        "(own kernel matrix; box, equality constraint incl. sum = 1 for one-class, KKT(eps), bias interval, reported objective) "
+        "runs over the configuration cross trainer kind x bias x shrinking x precomputed/cache sizes x one/class-specific C x "
+        "weighted/unweighted x cold/warm x C x eps x {linear, Gaussian} and compares the objectives across configurations "
+        "against 2*eps*sum(U-L)."),
+  note=TRUST + "Hypotheses carried by the theorems: PSD-ness and symmetry of the kernel matrix (kkt_eps_near_optimal, config_independence); "
+       "the C08 state invariant (proved for every admissible solver history in Props/C08.lean: reachable_inv); bias_in_kkt_interval "
+       "is _partial (|gradient| > 1e100 is accepted by the C++ and breaks it: witness theorem). NOT proved: that the solver reaches the accuracy (termination); Gaussian kernels only "
+       "through the toleranced oracle. Found by this check and repaired in /repo (fix: commits, known_findings.json `fixed`): "
+       "F-C07-1..6 (EpsilonSvmTrainer offset, warm-start clipping x2, float warm-start gradient, zero-weight bias, weighted "
+       "warm start without bias throws).",
+  technique="Lean 4 proof on a solver/trainer model + differential correspondence with the C++ trainers (bit-for-bit on exact data) + independent KKT oracle",
   design="§6 C07")
 
 FINISH = dict(level="proof",
               rule="data sets: n in 2..14 integer points in dimension 1..3 (duplicates, separable and not, unbalanced classes), "
-                   "C on a dyadic grid 2^-3..2^6, eps in {1e-3, 2^-10, 2^-4, 2^-16}; configuration cross bias x shrinking x "
-                   "precomputed/cache size x kernel {linear, rbf}; non-trivial = solver ran at least 2 iterations; distinct = distinct op text")
+                   "C on a dyadic grid 2^-3..2^6 (one or class-specific), example weights in {0, 1/4, 1/2, 1, 2}, regression labels "
+                   "half-integers, tube in {1/8, 1/2, 1, 2}, nu in {1/8..3/4}, eps in {1e-3, 2^-10, 2^-4, 2^-16}; configuration cross "
+                   "trainer kind x bias x shrinking x precomputed/cache size x weighted x cold/warm x kernel {linear, rbf}; "
+                   "non-trivial = solver ran at least 2 iterations; distinct = distinct op text")
 
 LAKE_TARGETS = ["SharkVerif.Props.C07", "drv_c07"]
 PID = "C07"
@@ -109,7 +143,7 @@ def run(ctx):
     if os.path.isdir(corpus_dir):
         for fn in sorted(os.listdir(corpus_dir)):
             ops = [l.strip() for l in open(os.path.join(corpus_dir, fn)) if l.strip() and not l.startswith("#")]
-            cases += [[o] for o in ops if o.startswith("csvm")]
+            cases += [[o] for o in ops if o.split()[0] in ("csvm", "csvm2", "esvr", "ocsvm")]
     ctx.cov["corpus_cases"] = len(cases)
     for _ in range(nmodel):
         n, d, xs, ys = gen_data(r, ctx.quick)
@@ -119,6 +153,34 @@ def run(ctx):
         maxit = r.choice([100000, 100000, 100000, 3, 17])
         cases.append([f"csvm {bias} {shrink} {tok(C)} {tok(eps)} {maxit} " + data_text(n, d, xs, ys)])
         ctx.hist("n", n); ctx.hist("bias", bias); ctx.hist("shrinking", shrink); ctx.hist("log2C", int(math.log2(C)))
+    # widened model: class-specific C + per-example weights, epsilon-regression, one-class (cold starts)
+    for _ in range(nmodel // 2):
+        n, d, xs, ys = gen_data(r, ctx.quick)
+        shrink = r.below(2)
+        eps = r.choice([1e-3, 2.0 ** -10, 2.0 ** -4, 2.0 ** -16])
+        maxit = r.choice([100000, 100000, 100000, 3, 17])
+        pts = " ".join(tok(v) for x in xs for v in x)
+        kind = r.choice(["csvm2", "csvm2", "esvr", "esvr", "ocsvm"])
+        if kind == "csvm2":
+            bias = r.below(2)
+            Cn = 2.0 ** r.range(-3, 6)
+            Cp = Cn if r.chance(1, 3) else 2.0 ** r.range(-3, 6)          # one C / class-specific C
+            weighted = r.below(2)
+            ws = [r.choice([1.0, 1.0, 0.5, 2.0, 0.25, 0.0]) if weighted and r.chance(1, 2) else 1.0 for _ in range(n)]
+            pre, cache = r.choice([(1, 0), (0, 0), (0, 2 * n), (0, 3 * n + 1)])   # the model has no cache: all must agree with it
+            warmit, warmfac = (0, 1.0) if r.chance(1, 2) else (r.choice([1, 3, 10, 100000]), r.choice([1.0, 4.0, 0.25]))
+            cases.append([f"csvm2 {bias} {shrink} {pre} {cache} {weighted} {tok(Cn)} {tok(Cp)} {tok(eps)} {maxit} {warmit} {tok(warmfac)} "
+                          f"{n} {d} {pts} " + " ".join(str(y) for y in ys) + " " + " ".join(tok(w) for w in ws)])
+            ctx.hist("csvm2_config", f"pre={pre} weighted={weighted} classC={int(Cn != Cp)} warm={int(warmit > 0)}")
+        elif kind == "esvr":
+            C = 2.0 ** r.range(-3, 6)
+            tube = r.choice([0.125, 0.5, 1.0, 2.0])
+            lab = [r.range(-10, 10) / 2 for _ in range(n)]
+            cases.append([f"esvr {shrink} {tok(C)} {tok(tube)} {tok(eps)} {maxit} {n} {d} {pts} " + " ".join(tok(v) for v in lab)])
+        else:
+            nu = r.choice([0.25, 0.5, 0.75, 0.125])
+            cases.append([f"ocsvm {shrink} {tok(nu)} {tok(eps)} {maxit} {n} {d} {pts}"])
+        ctx.hist("model_op", kind)
     res = core.run_case(ctx, [exe], [drv], [c[0] for c in cases], timeout=900)
     its = [int(m.group(1)) for l in res.impl for m in [re.search(r"it=(\d+)", l)] if m]
     for it in its:
@@ -161,8 +223,9 @@ def run(ctx):
                 if nviol <= 3:
                     ctx.violation(key, {"harness_cmd": [exe], "ops": [l], "impl_output": [o[:2000]]}, found_input=True,
                                   what=f"trainer-level oracle: {o[o.find('!oracle'):][:300]}")
+    ngeneral = run_general(ctx, exe, r.fork("general"), 12 if ctx.quick else 150)
     ctx.cov["configurations_trained"] = ncfg
-    ctx.cov["evaluations"] = len(cases) + ncfg
+    ctx.cov["evaluations"] = len(cases) + ncfg + ngeneral
     ctx.cov["distinct_nontrivial"] = sum(1 for it in its if it >= 2)
     ctx.sample({"op": cases[len(cases) // 2][0][:200]})
     ctx.log(f"K-C07[oracle]: {ncfg} trainer configurations, {nviol} with oracle failures")
@@ -171,6 +234,110 @@ def run(ctx):
 def untok_obj(o):
     m = re.search(r";obj=(\S+)", o)
     return c08.untok(m.group(1))
+
+
+# ----------------------------------------------------------------------------- general trainers (oracle only)
+def gen_general(r, quick):
+    """one problem, and the op lines of its configuration cross: class-specific C / per-example weights / warm start
+    (kind c), epsilon-regression (kind e), one-class (kind o)"""
+    kind = r.choice(["c", "c", "c", "e", "e", "o"])
+    n = r.range(2, 8 if quick else 12)
+    d = r.range(1, 3)
+    xs = [[float(r.range(-3, 3)) for _ in range(d)] for _ in range(n)]
+    if r.chance(1, 4) and n > 2:
+        xs[r.below(n)] = list(xs[r.below(n)])
+    weighted = 0
+    ws = [1.0] * n
+    if kind == "c":
+        ys = [float(r.below(2)) for _ in range(n)]
+        if all(y == ys[0] for y in ys):
+            ys[0] = 1.0 - ys[0]
+        p1 = 2.0 ** r.range(-3, 4)
+        p2 = p1 if r.chance(2, 5) else 2.0 ** r.range(-3, 4)
+        if r.chance(1, 2):
+            weighted = 1
+            ws = [r.choice([0.0, 0.25, 0.5, 1.0, 1.0, 2.0]) for _ in range(n)]
+    elif kind == "e":
+        ys = [r.range(-10, 10) / 2 for _ in range(n)]
+        p1 = 2.0 ** r.range(-3, 4)
+        p2 = r.choice([0.125, 0.5, 1.0])
+    else:
+        ys = [0.0] * n
+        p1 = r.choice([0.25, 0.5, 0.75])
+        p2 = 0.0
+    kern = r.choice(["lin", "lin", "rbf"])
+    gamma = r.choice([0.5, 0.125, 1.0])
+    eps = r.choice([1e-3, 2.0 ** -10, 2.0 ** -4])
+    warms = [(0, 1.0)]
+    if kind == "c":
+        warms.append((r.choice([1, 3, 10, 100000]), r.choice([1.0, 4.0, 0.25])))
+    tail = f"{weighted} {tok(p1)} {tok(p2)} {n} {d} " + " ".join(tok(v) for x in xs for v in x) + " " + \
+        " ".join(tok(y) for y in ys) + " " + " ".join(tok(w) for w in ws)
+    groups = []
+    for bias in ((0, 1) if kind == "c" else (1,)):
+        lines = []
+        for warmit, warmfac in warms:
+            for shrink in (0, 1):
+                for pre, cache in ((1, 0), (0, 0), (0, 2 * n)):
+                    lines.append(f"trn {kind} {kern} {tok(gamma)} {bias} {shrink} {pre} {cache} {tok(eps)} 100000 "
+                                 f"{warmit} {tok(warmfac)} " + tail)
+        groups.append(lines)
+    return dict(kind=kind, weighted=weighted, zero_weight=int(weighted and 0.0 in ws), eps=eps, kern=kern), groups
+
+
+def general_key(line, out):
+    t = line.split()
+    m = re.search(r"!oracle (\S+?)(?:[@(]|\s|$)", out)
+    tag = m.group(1) if m else ("exception" if out.startswith("exception") else "crash")
+    w = [c08.untok(x) for x in t[-int(t[15]):]]
+    return (f"oracle:{tag}:kind={t[1]}:warm={0 if t[10] == '0' else 1}:weighted={t[12]}:"
+            f"zeroweight={int(t[12] == '1' and 0.0 in w)}:bias={t[4]}")
+
+
+def run_general(ctx, exe, r, ngen):
+    ntr = nviol = 0
+    seen = {}
+    corpus = os.path.join(core.VERIF, "corpus", PID)
+    groups_all = []
+    if os.path.isdir(corpus):
+        for fn in sorted(os.listdir(corpus)):
+            ops = [l.strip() for l in open(os.path.join(corpus, fn)) if l.strip() and not l.startswith("#")]
+            ops = [o for o in ops if o.startswith("trn")]
+            if ops:
+                groups_all.append((dict(kind=ops[0].split()[1], weighted=0, zero_weight=0, eps=c08.untok(ops[0].split()[8]), kern="corpus"), [ops]))
+    for _ in range(ngen):
+        groups_all.append(gen_general(r, ctx.quick))
+    for info, groups in groups_all:
+        ctx.hist("general_kind", info["kind"] + ("+w" if info["weighted"] else ""))
+        for lines in groups:
+            rc, out = core.sh([exe], input="\n".join(lines) + "\n", timeout=900,
+                              env=dict(os.environ, ASAN_OPTIONS="detect_leaks=0"))
+            outs = out.splitlines()
+            ntr += len(lines)
+            bad = [(l, o) for l, o in zip(lines, outs) if "!oracle" in o or o.startswith("exception") or o == "bad-op"]
+            if rc != 0 or len(outs) < len(lines):
+                bad.append((lines[min(len(outs), len(lines) - 1)], "crash: " + out[-800:]))
+            # configuration independence: all clean runs of the same problem (shrinking, cache, precomputation, warm/cold)
+            good = [(l, o) for l, o in zip(lines, outs) if "acc=1" in o and "!oracle" not in o and ";obj=" in o]
+            if len(good) > 1:
+                objs = [untok_obj(o) for _, o in good]
+                width = c08.untok(re.search(r";width=(\S+)", good[0][1]).group(1))
+                bound = 2 * info["eps"] * width + 1e-9 * (1 + width + max(abs(x) for x in objs))
+                if max(objs) - min(objs) > bound:
+                    bad.append((good[0][0], f"!oracle objective-depends-on-configuration spread={max(objs)-min(objs)} bound={bound}"))
+            for l, o in bad:
+                key = general_key(l, o)
+                if key in seen:
+                    continue
+                seen[key] = 1
+                nviol += 1
+                ctx.count("general_oracle_failure_kinds")
+                ctx.violation(key, {"harness_cmd": [exe], "ops": [l], "impl_output": [o[:2000]]}, found_input=True,
+                              what=f"trainer-level oracle (general trainers): {o[o.find('!oracle'):][:300]} on {l[:160]}")
+    ctx.cov["general_trainings"] = ntr
+    ctx.log(f"K-C07[general trainers: class-specific C, weights, warm start, epsilon-SVR, one-class]: {ntr} trainings, "
+            f"{nviol} distinct oracle failure keys (known findings are listed, not counted as violations)")
+    return ntr
 
 
 def replay(ctx, rep):
